@@ -306,7 +306,7 @@ class ValGen(object):
 
         hi = int(hi)
 
-        if extensible and rng.random() < 0.15:
+        if extensible and rng.random() < 0.25:
             # Outside the root of an extensible constraint: above it, or
             # (just as legal) below it.
             if lo > 0 and rng.random() < 0.5:
